@@ -75,7 +75,8 @@ TECH = {
            'Cell.compile, cache-key dependence, path conditions of the '
            'external-link store',
     'C15': 'work-list discipline and drop-path classification on CFG, '
-           'snapshot-freshness dataflow, numeric row-bound comparison',
+           'snapshot-freshness dataflow, numeric row-bound comparison, '
+           'dependence of placeholder decisions on carried loop state',
     'C17': 'pickling-hook/attribute-set sibling agreement, module-level token '
            'inventory, global-write effect analysis, reads of attributes '
            'emptied by __getstate__ from copy-stable operations, shared '
